@@ -250,6 +250,11 @@ func (f *lsFrame) pathOf1(v ssa.Value) string {
 		}
 		return ""
 	case *ssa.Global:
+		if !isModPath(x.Pkg.Pkg.Path()) {
+			// package-level objects of the standard library / dependencies (http.DefaultClient, rand.Reader,
+			// os.Stderr, ...) are documented as safe for concurrent use; they are not state of a middleware
+			return ""
+		}
 		return "G:" + x.Pkg.Pkg.Name() + "." + x.Name()
 	case *ssa.FieldAddr:
 		_, name, base, _ := fieldOf(x)
@@ -476,6 +481,9 @@ func readOnlyForeign(o *types.Func) bool {
 	pk := o.Pkg().Path()
 	name := objName(o)
 	switch pk {
+	case "bytes":
+		// wrapping a slice for reading (request bodies) does not write it
+		return name == "NewBuffer" || name == "NewReader" || name == "Equal" || name == "Contains"
 	case "fmt", "reflect", "errors", "strconv", "strings", "net/url", "net", "math", "sort", "os", "time", "encoding/base64", "path":
 		if pk == "sort" {
 			return false
